@@ -605,6 +605,8 @@ def rule_s15(ctx):
             for (r, p) in body.trace(op["place"]):
                 if r[0] == "call" and mir.last_seg(str(r[2])) == "size_in_bits_for_defs" and not p:
                     kinds.add("width")
+                elif r[0] == "call" and mir.last_seg(str(r[2])) == "resolve_const_expr_usize" and not p:
+                    kinds.add("count")          # the evaluated size expression of a `[T; const { .. }]` type
                 elif len(p) >= 2 and tuple(p[-2:]) in (("as Array", "1"),):
                     kinds.add("count")          # the length written in an array type
                 elif r[0] == "agg" and depth > 0 and len(p) == 2 and p[0].startswith("as ") and p[1].isdigit():
